@@ -34,13 +34,27 @@ RULE = ('random model scripts (1-5 equations; lags/leads, {parameters}, <errors>
         'only, functions, keywords, single symbol, ...): oracle + three-way comparison real output == model output '
         '== original list; plus contiguous sub-lists / reversals of those (three-way comparison only: not parser '
         'output, covered by the theorem). '
+        'Edge whitespace: scripts whose fenced blocks have trailing blanks / tabs, whitespace-only first / last lines, '
+        'whitespace-only or empty bodies, CR/LF line ends, opening fences with trailing blanks, and equations with '
+        'trailing blanks (kept only as edge cases when the PARSER OUTPUT really carries \'\' or leading / trailing '
+        'whitespace in a str field: counted under symbols-edge:parser:*), plus hand-built Symbol lists = every string '
+        'of a 23-string alphabet (x, " x", "x ", tab/newline/CR variants, " ", "", "a b", "nan", NUL, NBSP ...) in each of '
+        'name / equation / code of a verbatim / endogenous / function symbol, alone, next to None rows (mixed column, '
+        'both orders), next to another str, duplicated, with the other str fields None (all-missing columns), all '
+        'ordered pairs of a 9-string alphabet per column, and random lists over the alphabet (oracle + three-way '
+        'comparison; the oracle compares every str field character by character and by type, so \'\' vs None and '
+        '"x " vs "x" are told apart: keys symbols-roundtrip-str-altered / -str-lost / -tuple-neq). str-valued model '
+        'variables with edge-whitespace cells, variable names (column labels) and span labels (list / NumPy / pandas '
+        'Index) with edge whitespace or \'\' go through the same table oracles. '
         'distinct = distinct (instance recipe, entry point, flags) resp. distinct symbol list; non-trivial = at least '
         'one variable and one period resp. a non-empty list')
 TRUSTED = ['pandas (DataFrame construction from a dict of arrays / a list of dicts, Index construction from the span, '
            'dtype inference, None->NaN coercion, column assignment, iterrows, DataFrame.items) is OUTSIDE the Lean '
            'model and only observed: its missing-value coercion enters the theorems through the reflected table '
            'Fsic.Generated.pandasCoercion (harness/reflect_tools.py), dtype preservation is checked on the real '
-           'DataFrame by the oracle only',
+           'DataFrame by the oracle only; string identity of present cells (incl. \'\' and strings with edge whitespace) '
+           'is probed on the installed pandas by harness/reflect_tools.py (str_*_full/_mixed/_alone = "same") and enters '
+           'installed_coercion_observed through presentAsModelled',
            'NumPy astype(float) on int/bool cells equals Lean Float.ofInt (driver instance of the cast)',
            'cells and span labels cross to the Lean driver as opaque tokens (floats as IEEE bit patterns)']
 ASSUMPTIONS = ['variable names are distinct and none is called status/iterations (the constructor and add_variable '
@@ -57,7 +71,7 @@ ASSUMPTIONS = ['variable names are distinct and none is called status/iterations
                '(the property is silent); the Lean theorems state what the code does (appended last, linker first)']
 
 META = {
-    "text": "Theorems for every store (any variables, span, cell type), flag combination, linker and symbol list: exported columns = model-order names (underscore-prefixed iff requested) ++ status? ++ iterations?, no duplicates, index = span, one cell per period, each column holds exactly its series; container export = index order; linker export = one table per submodel plus the linker's, keyed correctly (guard: linker name not a submodel key; count theorem without the guard); from_dataframe on any export reproduces span and the cast of every class variable (identity for float models); symbols_roundtrip: for EVERY symbol list, with the reflected coercion of the installed pandas, the code's decoder (is_missing = None or float NaN -> None in name/lags/leads/equation/code, int(field) otherwise for lags/leads) returns the original list (iff every type is a Type member); in general the round trip holds for every list IFF the decoder maps the coercion's missing markers back to None in every optional field, which the code's decoder does for any coercion whose markers are None/NaN. Tied to fsic/tools.py, BaseModel.from_dataframe, VectorContainer.to_dataframe by exact comparison of tables (cells as IEEE bits) on generated models/linkers/symbol lists; symbol round trips compared three ways (real output == model output == original list).",
+    "text": "Theorems for every store (any variables, span, cell type), flag combination, linker and symbol list: exported columns = model-order names (underscore-prefixed iff requested) ++ status? ++ iterations?, no duplicates, index = span, one cell per period, each column holds exactly its series; container export = index order; linker export = one table per submodel plus the linker's, keyed correctly (guard: linker name not a submodel key; count theorem without the guard); from_dataframe on any export reproduces span and the cast of every class variable (identity for float models); symbols_roundtrip: for EVERY symbol list, with the reflected coercion of the installed pandas, the code's decoder (is_missing = None or float NaN -> None in name/lags/leads/equation/code, int(field) otherwise for lags/leads) returns the original list (iff every type is a Type member); in general the round trip holds for every list IFF the decoder maps the coercion's missing markers back to None in every optional field, which the code's decoder does for any coercion whose markers are None/NaN. String identity: codeDecoder_preserves_strings (for EVERY string s a present str cell decodes to s itself in name/equation/code: is_missing never fires on a str, '' and whitespace-only included), present_strings_roundtrip (under ANY coercion, whenever the round trip returns, it returns one symbol per input symbol and every present str field unchanged), symbols_roundtrip_strings (installed pandas: it does return), toPy_injective ('' and None, 'x ' and 'x' are different values of the model, so equality with the original list is field-exact), normalising_decoder_breaks_roundtrip (a decoder that alters even one string in one str field fails on a one-symbol list). Tied to fsic/tools.py, BaseModel.from_dataframe, VectorContainer.to_dataframe by exact comparison of tables (cells as IEEE bits) on generated models/linkers/symbol lists; symbol round trips compared three ways (real output == model output == original list), including parser outputs and hand-built lists whose str fields are '' or carry leading/trailing/only whitespace (strings cross to the driver JSON-escaped and come back exactly).",
     "design_ref": "DESIGN.md §5 M8, §6 C19, §7 row 15",
     "note": "Partial: pandas is outside the model (DataFrame/Index construction, dtype inference, None->NaN coercion, iterrows) - observed through the reflected table and by the oracle (dtype preservation). The two symbols round-trip findings (NaN for a missing name/equation/code; TypeError when every lags/leads entry is None) are fixed by fsic 56f842e: their oracle keys remain and a regression under them is a VIOLATION. Open known finding on the unchanged tree: a None span label is exported as NaN (df-index-none-label-nan). Trusted: Lean kernel, standard axioms, the correspondence harness.",
     "technique": "Lean 4 proof (induction over insertion-ordered dicts and symbol lists, decide on reflected tables) + differential correspondence check + property oracle on the real DataFrames"
